@@ -99,6 +99,9 @@ def mk_exc(name: str, args=()) -> ExcV:
     return ExcV(name, exc_bases(name), args)
 
 
+from .mapseq import LazyComp as LazyComp_   # mapseq (C19x)
+
+
 class Frame:
     __slots__ = ('locals', 'module', 'fn', 'cls', 'parent')
 
@@ -574,6 +577,10 @@ class Path:
         return Opaque('fstring') if r is None else r
 
     def ev_Tuple(self, node, fr):
+        from . import mapseq   # mapseq: `(*a, x, *b)` over symbolic sequences (C19x)
+        r = mapseq.starred_tuple(self, node, fr)
+        if r is not seqs.NOT_HANDLED:
+            return r
         out = []
         for e in node.elts:
             if isinstance(e, ast.Starred):
@@ -841,6 +848,11 @@ class Path:
             if isinstance(it_, SymSet):   # absnodes: `f(x) for x in <symbolic set>` (for any / all)
                 from . import absnodes
                 raise absnodes.CompOverSymSet(absnodes.comp_over_symset(self, node, fr, it_))
+            if i == 0 and isinstance(it_, seqs.SymSeq):   # mapseq: effect-free comprehension over a symbolic sequence (C19x)
+                from . import mapseq
+                r = mapseq.comp_over_seq(self, node, inner, it_, 'list')
+                if r is not seqs.NOT_HANDLED:
+                    raise mapseq.LazyComp(r)
             for item in self.iterate(it_):
                 self.assign(g.target, item, inner)
                 ok = True
@@ -851,7 +863,10 @@ class Path:
                         break
                 if ok:
                     rec(i + 1)
-        rec(0)
+        try:
+            rec(0)
+        except LazyComp_ as e:   # mapseq
+            return e.seq
         return out
 
     def ev_Starred(self, node, fr):
